@@ -18,20 +18,16 @@ def nontrivial(req, obs):
     f = req.split()
     if not f:
         return False
-    if f[0] in ("rq", "fanin"):
+    if f[0] in ("rq", "fanin", "fwd", "e2e", "fanout"):
         return True                      # a message went through a running component
-    if f[0] == "fwd":
-        return f[2] != "bad" or True     # valid and invalid envelopes both exercise the statement
-    if f[0] in ("e2e", "fanout"):
-        return True
     if f[0] == "fpub":
         return f[3] != "-"               # at least one message in the batch
-    return False                         # atoi/itoa/ctor tables are library/construction checks
+    return False                         # atoi/itoa/utf8/constructor tables are library / construction checks
 
 
 PROP = {
     "id": "C17",
-    "lean_targets": ["WmModel.Props.C17"],
+    "lean_targets": ["WmModel.Props.C17", "WmModel.Props.C17Tie"],
     "audit_module": "Audit.C17",
     "theorems": [
         "Wm.Relay.atoi_itoa", "Wm.Relay.atoi_range",
@@ -45,17 +41,61 @@ PROP = {
         "Wm.Relay.ack_after_destination", "Wm.Relay.nack_on_destination_failure_requeuer", "Wm.Relay.settle_last",
         "Wm.Relay.stream_eq_map", "Wm.Relay.stream_accepted_eq_acked", "Wm.Relay.relay_streams",
     ],
-    "tie_theorems": [],
+    "tie_theorems": ["Wm.GoRelay.extracted_requeuer_eq_model", "Wm.GoRelay.extracted_unwrap_eq_model",
+                     "Wm.GoRelay.extracted_forward_eq_model"],
     "harness": "c17",
     "race": True,
     "driver": "drv_c17",
     "nontrivial": nontrivial,
     "classify": classify,
-    "rule": "",
-    "trusted_base": [],
-    "assumptions": [],
-    "explanation": "",
-    "level_text": "",
-    "level_note": "",
+    "rule": "Every case drives the real component (its internal message.Router running) with a scripted source subscriber and a scripted "
+            "destination publisher that records, inside Publish, topic/uuid/payload/metadata, object identity and whether the consumed message "
+            "was still unsettled, and fails on scripted calls; settlement is read from Acked()/Nacked(). "
+            "rq: Requeuer (default and caller-supplied Router) - counter table {absent, 0, 1, 7, +5, ' 5', x, -3, 007, MaxInt64-1, MaxInt64 (known "
+            "finding), 2^63, MinInt64, 1_0, non-ASCII digits, ...}, 150 (quick) / 1500 (thorough) random messages with arbitrary-byte "
+            "uuids/metadata, topic generator ok/error, destination failing at random or from the k-th message on, cancelled contexts, "
+            "12-fold repeated requeue of one message, concurrent bursts of 4..15 messages, Delay>0 with live and cancelled contexts. "
+            "fwd: Forwarder with AckWhenCannotUnwrap off/on x 21 payload classes (wrap, hand-written JSON, minimal, extra fields, "
+            "case-insensitive keys, duplicate keys, nulls, empty destination, no destination, null, {}, garbage, empty, truncated, trailing "
+            "bytes, wrong types, bad base64, array, string, number) x destination failing on every k-th message, plus concurrent bursts. "
+            "fpub: forwarder.Publisher batches of 0..4 messages, default/custom forwarder topic, empty destination topic, failing wrapped "
+            "publisher; envelopes decoded with a generic JSON decode. e2e: Publisher -> scripted transport or blocking GoChannel -> Forwarder -> "
+            "scripted destination. fanin: 1/2/4 source topics, destination failing from the k-th message on, bursts; constructor validation table. "
+            "fanout: 0/1/3 subscribers per topic, two topics, idempotent AddSubscription. atoi/itoa/utf8: the strconv and utf8 models against the "
+            "library on edge tables and seeded random strings. Non-trivial = a message went through a running component (or a non-empty "
+            "Publisher batch); distinct = distinct (request, observation) pairs.",
+    "trusted_base": [
+        "Lean 4.33.0 kernel; axioms per theorem listed under theorem_axioms (subset of propext, Classical.choice, Quot.sound)",
+        "extractor harness/cmd/extract/c17.go (go/ast printer of Requeuer.handler, Forwarder.forwardMessage, unwrapMessageFromEnvelope + "
+        "structural facts on Publisher.Publish, NewFanIn, FanOut.AddSubscription, PassthroughHandler, envelope struct tags, validate) and the "
+        "interpreters in WmModel/GoRelay.lean as the semantics of those Go statements",
+        "the Router's settle rule (error => Nack; outputs published, Ack iff accepted) is inlined in the model; it is the subject of C02 and is "
+        "here exercised through the real Routers the components run",
+        "encoding/json and base64: decoding inverts encoding on envelopes whose strings are valid UTF-8 - hypothesis hrt of "
+        "forwarder_end_to_end, tested on every run (Publisher output decoded generically; e2e through the real code), not proved",
+        "strconv.Atoi/Itoa, Go int wrap-around and utf8.Valid are modelled executably (WmModel/Relay.lean) and differentially tested against the library",
+        "GoChannel (FanOut's internal Pub/Sub) delivers a copy to every current subscriber (C04); only its acceptance of Publish is used here",
+        "differential harness harness/cmd/c17 + Lean driver Driver/C17.lean (model diff and independent monitor); Go race detector (runtime fact)",
+    ],
+    "assumptions": [
+        "Forwarder clauses (Publisher, envelope, Forwarder, end to end) are scoped to destination topics, uuids and metadata that are valid UTF-8 "
+        "(payload bytes arbitrary): JSON is the wire contract and encoding/json replaces invalid bytes by U+FFFD (reproduced: uuid 'id-\\xff' "
+        "arrives as 'id-\\ufffd'); generators for these flows emit valid UTF-8 only, FanIn/FanOut/Requeuer get arbitrary bytes everywhere",
+        "messages have a non-nil Metadata map (message.NewMessage); FanIn source topics are pairwise distinct (duplicate names make AddHandler panic)",
+        "destination publishers either accept or return an error (no panic, no blocking); GeneratePublishTopic is a function of the message",
+        "FanOut's destination is its internal GoChannel, which cannot be made to fail while running: only acceptance is exercised there",
+        "Delay>0 with a context cancelled during the wait (rather than before it) is a race between two ready select cases and is not exercised",
+    ],
+    "explanation": "Theorems quantify over all messages, prior counter strings, envelopes, flags, topics and destination outcomes and, by induction, "
+                   "over all message streams with destination failures at any positions; three tie theorems are re-proved against the bodies "
+                   "extracted from the current source; 42 structural facts pin the remaining wiring; the harness validates the models on the real "
+                   "components, sequentially and in concurrent bursts. Known finding D16 (counter overflow at MaxInt64) is modelled as the code "
+                   "behaves, guarded in requeuer_counter_partial and witnessed by requeuer_counter_overflow_witness.",
+    "level_text": "Machine-checked (Lean 4) theorems over executable models of the four relay components composed with the Router's settle rule; "
+                  "models tied to the current source by generated deep embeddings with equality theorems, structural facts and differential "
+                  "execution of the real components.",
+    "level_note": "Proved about the models, not about the Go code; the tie is checked on every run. encoding/json round-trip (valid UTF-8), "
+                  "GoChannel delivery and the Router's settle rule are assumed/modelled here and verified elsewhere (C16, C04, C02). "
+                  "requeuer_counter_partial excludes prior counter = MaxInt64 (open finding retries=MaxInt64).",
     "technique": "Lean 4 theorems over a hand-written executable model + structural facts + differential correspondence check against the Go code",
 }
